@@ -7,22 +7,24 @@ import (
 
 // ProgOpts are the knobs of the program generator.
 type ProgOpts struct {
-	MaxStmts   int  // statements per block
-	MaxDepth   int  // nesting depth of statements
-	ExprDepth  int  // nesting depth of expressions
-	Try        bool // try/catch/finally/throw
-	Funcs      bool // function literals, closures, calls
-	Loops      bool
-	Containers bool // arrays, maps, indexing
-	Builtins   bool // len, append, typeName
-	Floats     bool
-	Strings    bool
-	Log        bool // append side-effect markers to the global `log`
-	Params     int  // number of `param` names (a0..)
-	Decls      bool // var/const groups, iota, destructuring, inc/dec
-	TryHeavy   bool // many nested try/catch/finally with every exit kind
-	CallHeavy  bool // many functions, closures, variadic/spread calls
-	FailOps    bool // operations that raise runtime errors (1/0 via variables, bad index, call of non-callable)
+	MaxStmts      int  // statements per block
+	MaxDepth      int  // nesting depth of statements
+	ExprDepth     int  // nesting depth of expressions
+	Try           bool // try/catch/finally/throw
+	Funcs         bool // function literals, closures, calls
+	Loops         bool
+	Containers    bool // arrays, maps, indexing
+	Builtins      bool // len, append, typeName
+	Floats        bool
+	Strings       bool
+	Log           bool // append side-effect markers to the global `log`
+	Params        int  // number of `param` names (a0..)
+	Decls         bool // var/const groups, iota, destructuring, inc/dec
+	TryHeavy      bool // many nested try/catch/finally with every exit kind
+	CallHeavy     bool // many functions, closures, variadic/spread calls
+	FailOps       bool // operations that raise runtime errors (1/0 via variables, bad index, call of non-callable)
+	NoTopReturn   bool // no `return` outside function literals (stream eval: fragments must not return early)
+	SingleKeyMaps bool // map literals with at most one key (their String() does not depend on Go's map order)
 }
 
 // DefaultProgOpts is a mostly-valid mix of everything the VM model supports.
@@ -33,8 +35,8 @@ func DefaultProgOpts() ProgOpts {
 
 type scope struct {
 	kinds  map[string]byte // 'I' int, 'B' bool, 'S' string, 'A' array, 'M' map, 'X' unknown
-	vars   []string // assignable variables visible here
-	funcs  []string // names known to hold functions (with arity)
+	vars   []string        // assignable variables visible here
+	funcs  []string        // names known to hold functions (with arity)
 	arity  map[string]int
 	inLoop bool
 	inFunc bool
@@ -125,7 +127,7 @@ func (g *progGen) stmt(sb *strings.Builder, sc *scope, depth int, ind string) {
 	if sc.inLoop {
 		choices = append(choices, "break", "continue")
 	}
-	if sc.inFunc || depth > 0 {
+	if sc.inFunc || (depth > 0 && !o.NoTopReturn) {
 		choices = append(choices, "return")
 	}
 	if o.Containers && len(sc.vars) > 0 {
@@ -313,7 +315,11 @@ func (g *progGen) stmt(sb *strings.Builder, sc *scope, depth int, ind string) {
 		if v == "" {
 			v = g.varOfKind(sc, 'M')
 			if v != "" {
-				fmt.Fprintf(sb, "%s%s.%s = %s\n", ind, v, []string{"a", "b", "k"}[g.r.Intn(3)], g.exprK(sc, 1, 'I'))
+				key := []string{"a", "b", "k"}[g.r.Intn(3)]
+				if g.o.SingleKeyMaps {
+					key = "a"
+				}
+				fmt.Fprintf(sb, "%s%s.%s = %s\n", ind, v, key, g.scalarExpr(sc, 2))
 				return
 			}
 		}
@@ -324,8 +330,38 @@ func (g *progGen) stmt(sb *strings.Builder, sc *scope, depth int, ind string) {
 		if v == "" || (g.o.FailOps && g.r.Intn(12) == 0) {
 			v = sc.vars[g.r.Intn(len(sc.vars))]
 		}
-		fmt.Fprintf(sb, "%s%s[%s] = %s\n", ind, v, g.smallIdx(), g.exprK(sc, 1, 'I'))
+		fmt.Fprintf(sb, "%s%s[%s] = %s\n", ind, v, g.smallIdx(), g.scalarExpr(sc, 2))
 	}
+}
+
+// scalarExpr is the right-hand side of every store INTO a container: it can only evaluate to an
+// int, a bool or a string (or fail), never to a container.  Scripts can build values that contain
+// themselves (`a[0] = a`), and rendering, copying or comparing such a value overflows the Go stack
+// of the implementation (known finding C19:cyclic-arg), which would kill the harness process.
+func (g *progGen) scalarExpr(sc *scope, depth int) string {
+	if depth <= 0 || g.r.Intn(3) == 0 {
+		lits := []string{"0", "1", "2", "3", "7", "(-1)", "100", "true", "\"s\"", "'c'"}
+		return lits[g.r.Intn(len(lits))]
+	}
+	switch g.r.Intn(4) {
+	case 0:
+		if len(sc.vars) > 0 && g.o.Builtins {
+			return "len(" + sc.vars[g.r.Intn(len(sc.vars))] + ")"
+		}
+	case 1:
+		if len(sc.vars) > 0 && g.o.Builtins {
+			return "typeName(" + sc.vars[g.r.Intn(len(sc.vars))] + ")"
+		}
+	case 2:
+		if len(sc.vars) > 0 {
+			return "(" + sc.vars[g.r.Intn(len(sc.vars))] + " == " + g.scalarExpr(sc, depth-1) + ")"
+		}
+	}
+	ops := []string{"+", "-", "*", "&", "|"}
+	if g.o.FailOps && g.r.Intn(4) == 0 {
+		ops = []string{"/", "%", "<<"}
+	}
+	return "(" + g.scalarExpr(sc, depth-1) + " " + ops[g.r.Intn(len(ops))] + " " + g.scalarExpr(sc, depth-1) + ")"
 }
 
 func (g *progGen) callExpr(sc *scope, depth int) string {
@@ -411,6 +447,9 @@ func (g *progGen) expr(sc *scope, depth int) string {
 		return g.arrayExpr(sc, depth)
 	case k == 11 && g.o.Containers:
 		n := g.r.Intn(3)
+		if g.o.SingleKeyMaps && n > 1 {
+			n = 1
+		}
 		var es []string
 		keys := []string{"a", "b", "k"}
 		for i := 0; i < n; i++ {
@@ -528,6 +567,9 @@ func (g *progGen) exprK(sc *scope, depth int, k byte) string {
 		return g.exprK(sc, depth-1, 'A') + "[" + []string{"0", "0", "1", "2"}[g.r.Intn(4)] + ":]"
 	case 'M':
 		n := g.r.Intn(3)
+		if g.o.SingleKeyMaps && n > 1 {
+			n = 1
+		}
 		var es []string
 		keys := []string{"a", "b", "k"}
 		for i := 0; i < n; i++ {
